@@ -2,14 +2,17 @@ package main
 
 import (
 	_ "github.com/bufbuild/bufverif/checks/c02"
+	_ "github.com/bufbuild/bufverif/checks/c05"
 	_ "github.com/bufbuild/bufverif/checks/c06"
 	_ "github.com/bufbuild/bufverif/checks/c07"
 	_ "github.com/bufbuild/bufverif/checks/c08"
 	_ "github.com/bufbuild/bufverif/checks/c09"
+	_ "github.com/bufbuild/bufverif/checks/c11"
 	_ "github.com/bufbuild/bufverif/checks/c12"
 	_ "github.com/bufbuild/bufverif/checks/c13"
 	_ "github.com/bufbuild/bufverif/checks/c14"
 	_ "github.com/bufbuild/bufverif/checks/c15"
+	_ "github.com/bufbuild/bufverif/checks/c16"
 	_ "github.com/bufbuild/bufverif/checks/c18"
 	_ "github.com/bufbuild/bufverif/checks/c19"
 	_ "github.com/bufbuild/bufverif/checks/c20"
